@@ -967,3 +967,62 @@ def r19_12(prog, rep, rid="R19.12"):
         else:
             rep.ok(rid, key, f.loc(), "%d single values and sets: the cursor is the member + 1 and ends at 0%s" % (
                 n, (" (read as such by %s)" % ", ".join(who)) if who else ""))
+
+
+def r19_13(prog, rep, rid="R19.13", tier="quick"):
+    """The signed iterators hand out exactly the members of the container, each once: bi31_next()/bi63_next() are walked call after
+    call from a fresh cursor until the cursor is back at 0, for one stored number and for bitsets that hold the extreme members, the
+    neighbours 62/63 and 30/31, the naught, and members of both signs.  The expected members are read off the representation the
+    membership rules (R19.6) confirm: bit k of `pos` is +k, bit 0 of `neg` the naught, bit k of `neg` is -k."""
+    for name, W in (("bi31_next", 31), ("bi63_next", 63)):
+        f = prog.fn(name)
+        it, bi = f.params[0]["n"], f.params[1]["n"]
+        key = "%s/hands-out-the-members-once" % name
+        n = 0
+        bad = []
+
+        def call1(pos, neg, cur):
+            outs = []
+
+            def effect(b, i, x, store):
+                if isinstance(x, dict) and x.get("k") == "ret" and x.get("e") is not None:
+                    outs.append((eval_in(store, f.cfg.resolve(x["e"]), f), store.get("*" + it)))
+                return None
+            AbsWalk(f, {"*" + it, bi + ".pos", bi + ".neg"} | {l_["n"] for l_ in f.locals},
+                    init={"*" + it: cur, bi + ".pos": pos, bi + ".neg": neg}, effect=effect, max_states=20000).run()
+            if len(set(outs)) != 1 or None in outs[0]:
+                raise AnalysisBroken("%s(pos=%#x, neg=%#x, cursor=%d): no single outcome (%s)" % (name, pos, neg, cur, outs[:2]))
+            return outs[0]
+
+        def iterate(pos, neg):
+            got = []
+            cur = 0
+            for _ in range(2 * W + 4):
+                r, cur = call1(pos, neg, cur)
+                if not cur:
+                    return got
+                got.append(r)
+            return got + ["..."]
+        sets = [(W,), (W - 1, W), (1, W), (W - 2, W - 1, W), (-W,), (-W, -(W - 1)), (0, W, -W), (0,), (-1, 1), (1, 2, 3), (0, -1), (5, -5, W - 1),
+                (W // 2, W // 2 + 1), (-(W // 2), -(W // 2 + 1)), (0, 1), (-W, W - 1, W)]
+        if tier == "thorough":
+            sets += [(a,) for a in range(-W, W + 1)] + [(a, a + 1) for a in range(-W, W)] + [(a, W) for a in range(-W, W)] + [(-W, a) for a in range(-W + 1, W + 1)]
+        for v in (0, 1, -1, 5, W, -W, W - 1):
+            n += 1
+            neg = v & ((1 << (W + 1)) - 1)
+            got = iterate(1, neg if v >= 0 else v)
+            if got != [v]:
+                bad.append("the single stored number %d is iterated as %s" % (v, got))
+        for s in sets:
+            if len(s) < 2 and tier != "thorough" and s not in ((W,), (-W,), (0,)):
+                continue
+            n += 1
+            pos = sum(1 << k for k in s if k > 0)
+            neg = sum(1 << -k for k in s if k <= 0)
+            got = iterate(pos, neg)
+            if sorted(map(str, got)) != sorted(map(str, set(s))):
+                bad.append("the bitset {%s} is iterated as %s" % (", ".join(map(str, sorted(set(s)))), got))
+        if bad:
+            rep.fail(rid, key, f.loc(), "%d of %d containers: %s" % (len(bad), n, "; ".join(bad[:3])), {"examples": bad[:20]})
+        else:
+            rep.ok(rid, key, f.loc(), "%d containers (one stored number; bitsets with the extremes, neighbours, the naught, both signs): every member once, then the cursor is 0" % n)
